@@ -8,7 +8,7 @@
    get_connection creates: the logical connection first, its upstream-proxy carrier second).
    l_conns is the dict HttpLayer.connections in insertion order: key -> handler, the handler being named by
    the logical connection whose layer stack it is (stack[0] of get_connection); a key whose handler differs
-   from itself is a tunnel carrier registered when the stack's OpenConnection passed through event_to_child. *)
+   from itself is a tunnel carrier registered when the OpenConnection of the stack passed through event_to_child. *)
 From Coq Require Import NArith List Bool.
 From MV Require Import Base.Bytes Model.HttpRoutingBase Gen.ConnSpec.
 Import ListNotations.
@@ -47,7 +47,7 @@ Record lstate := mkL {
 
 Record cfg := mkCfg {
   ctx_server : N;                            (* self.context.server *)
-  client_h2 : bool;                          (* self.context.client.alpn == b"h2" *)
+  client_h2 : bool;                          (* self.context.client.alpn is the bytes h2 *)
   upstream_mode : bool }.                    (* self.mode == HTTPMode.upstream *)
 
 Fixpoint has_key {A} (l : list (N * A)) (c : N) : bool :=
